@@ -432,6 +432,25 @@ func (e *engine) drain() string {
 	return ""
 }
 
+// forget drops a finished connection from the bookkeeping (long histories)
+func (e *engine) forget(id int) {
+	s := e.sess[id]
+	if s == nil {
+		return
+	}
+	s.mu.Lock()
+	s.selfClosed = true
+	s.mu.Unlock()
+	s.cc.Close()
+	delete(e.sess, id)
+	for k, x := range e.order {
+		if x == id {
+			e.order = append(e.order[:k], e.order[k+1:]...)
+			break
+		}
+	}
+}
+
 func (e *engine) closeAll() {
 	for _, s := range e.sess {
 		s.mu.Lock()
@@ -727,13 +746,17 @@ func shape(in Input) string {
 
 // a replay file carries the input of one case of one part
 type anyInput struct {
-	Svc     int     `json:"svc"`
-	Trace   []Step  `json:"trace"`
-	Calls   []LCall `json:"calls"`
-	Probe   *DSess  `json:"probe"`
-	Others  []DSess `json:"others"`
-	Order   []int   `json:"order"`
-	Variant string  `json:"variant"`
+	Svc     int      `json:"svc"`
+	Trace   []Step   `json:"trace"`
+	Calls   []LCall  `json:"calls"`
+	Probe   *DSess   `json:"probe"`
+	Others  []DSess  `json:"others"`
+	Order   []int    `json:"order"`
+	Variant string   `json:"variant"`
+	Hist    int      `json:"hist"`
+	Cfg     []SEntry `json:"cfg"`
+	History []SDest  `json:"history"`
+	SProbe  *SDest   `json:"-"`
 }
 
 func isoPart(o hx.Opts, r *hx.Rand, only *Input) {
@@ -804,10 +827,16 @@ func main() {
 			hx.Fatal("replay: %v", err)
 		}
 		switch {
+		case in.Cfg != nil:
+			var sin SInput
+			if err := hx.LoadReplay(o.Only, &sin); err != nil {
+				hx.Fatal("replay: %v", err)
+			}
+			srvPart(o, r, &sin)
 		case in.Calls != nil:
 			limPart(o, r, &LInput{Calls: in.Calls})
 		case in.Probe != nil:
-			diffPart(o, r, &DInput{Svc: in.Svc, Variant: in.Variant, Probe: *in.Probe, Others: in.Others, Order: in.Order})
+			diffPart(o, r, &DInput{Svc: in.Svc, Variant: in.Variant, Probe: *in.Probe, Others: in.Others, Order: in.Order, Hist: in.Hist})
 		default:
 			isoPart(o, r, &Input{Svc: in.Svc, Trace: in.Trace})
 		}
@@ -816,6 +845,7 @@ func main() {
 	isoPart(o, r, nil)
 	diffPart(o, hx.NewRand(o.Seed+1000003), nil)
 	limPart(o, hx.NewRand(o.Seed+2000003), nil)
+	srvPart(o, hx.NewRand(o.Seed+3000003), nil)
 }
 
 func lower(s string) string { return strings.ToLower(s) }
